@@ -277,7 +277,7 @@ func runParseProp(c *Ctx, prop string) (int, error) {
 				if res == "harness-error" {
 					return 2, infra("exporting the parsed File failed: %s", msg)
 				}
-				e := map[string]interface{}{"ev": "parse", "cid": i + 1, "layout": lay.Name, "res": res, "msg": msg, "text": text}
+				e := map[string]interface{}{"ev": "parse", "cid": i + 1, "layout": lay.Name, "unspec": lay.Unspecified, "res": res, "msg": msg, "text": text}
 				if file != nil && cs.Part == "literals" {
 					b, _ := json.Marshal(file)
 					e["file"] = blankFloatConsts(b)
@@ -289,7 +289,7 @@ func runParseProp(c *Ctx, prop string) (int, error) {
 				events = append(events, e)
 			case "C16", "C17":
 				pres, _, _ := parseText(text)
-				e := map[string]interface{}{"ev": "format", "cid": i + 1, "layout": lay.Name, "parse": pres, "text": text,
+				e := map[string]interface{}{"ev": "format", "cid": i + 1, "layout": lay.Name, "unspec": lay.Unspecified, "parse": pres, "text": text,
 					"fres": "", "reparse": "", "file2": map[string]interface{}{}, "idem": false, "out": ""}
 				if pres == "nil" {
 					fres, fmsg, out := formatText(text)
